@@ -43,3 +43,29 @@ P("C07",
                 "modelled, not verified: value-to-bytes conversion of the carrier (x2bytes/bytebuf), parsing of the directive letters; both exercised by the correspondence run"],
   assumptions=["encoding/json is the reference JSON string decoder (implementation-side oracle and validation target of Spec/DecJSON.v)",
                "lone surrogates decode to U+FFFD as in encoding/json"])
+
+P("C10",
+  title="JS and CSS escaping leave no active character and decode to the input",
+  emode=True,
+  technique="Rocq proof (induction over rune lists, token-shape lemmas, hex/surrogate arithmetic by lia) of alphabet and round-trip theorems over a Gallina model of mod_js1.go/mod_css.go against ECMAScript-string and CSS-escape decoders; model tied to the code by correspondence through the extracted model over scalar values, representative pairs and random strings",
+  level_text=("Machine-checked theorems (Props/C10.v): for every list of scalar values (and, via C10_range_scalar, every byte string as Go ranges over it) the JS/CSS escaper output stays in the safe alphabet and decodes back to the input (CSS: NUL excepted); escapes are self-delimiting whatever follows; n letters decode with n passes. "
+              "The extracted model is run against the real engine on every byte < 0x80, a stride (quick) / all (thorough) scalar values, 64x64 ordered pairs of class representatives, random valid UTF-8; two independent Go mini-decoders decide the property on the real output and validate the Gallina decoders."),
+  level_note="Trusted: Coq kernel, extraction + OCaml driver, Go harness incl. the two ~60-line reference decoders; Go's UTF-8 range decoding is modelled by Model/Utf8.v (validated by the correspondence).",
+  design_ref="5 C10",
+  trusted_base=[KERNEL, EXTRACT, HARNESS,
+                "modelled, not verified: Go's `range` UTF-8 decoding (Model/Utf8.v utf8_decode), strconv.AppendInt base 16 (Model/Hex.v hex_lo), bytebuf Reduce-based padding (closed form pad0)"],
+  assumptions=["the harness's independent JS string-literal reader and CSS escape reader are the reference decoders",
+               "invalid UTF-8 input is outside the property's quantifier"])
+
+P("C08",
+  title="HTML and attribute escaping neutralise markup and decode back to the input",
+  emode=True,
+  technique="Rocq proof (induction, token-shape lemmas, closed byte sweeps, hex/padding arithmetic) of alphabet and round-trip theorems over a Gallina model of mod_html.go/mod_attr.go against a model of Go's html.UnescapeString; tied to the code by correspondence through the extracted model over scalar values, representative pairs, entity-looking and random strings",
+  level_text=("Machine-checked theorems (Props/C08.v): html_escape output has none of < > \" ' and every & starts one of five references; html_unescape(html_escape s) = s for every byte string; attr_escape output is within [A-Za-z0-9,.-_] + references and decodes to the input with controls normalised to U+FFFD, for every rune list and (C08_attr_bytes) every byte string; n letters = n-fold. "
+              "The extracted model runs against the real engine on every byte < 0x80, a stride (quick) / all (thorough) scalar values, 64x64 ordered representative pairs, entity-looking strings, random UTF-8, and htmlescape regions around raw text; html.UnescapeString decides the property on the real output and validates the Gallina decoder."),
+  level_note="Trusted: Coq kernel, extraction + OCaml driver, Go harness, html.UnescapeString as reference decoder (the Gallina decoder models its numeric-reference rules exactly and the four named references amp lt gt quot only).",
+  design_ref="5 C08",
+  trusted_base=[KERNEL, EXTRACT, HARNESS,
+                "modelled, not verified: Go's `range` UTF-8 decoding (utf8_decode), strconv hex formatting (hex_lo), bytebuf Reduce-based padding (closed form pad0)"],
+  assumptions=["html.UnescapeString is the reference entity decoder",
+               "the Gallina decoder covers numeric references and the names amp/lt/gt/quot; other named references are outside the escapers' image"])
